@@ -284,6 +284,33 @@ def random_spec(rng):
     return {"nodes": nodes, "marks": marks}
 
 
+REPEAT_OPS = ["+", "*", "?", "{2}", "{1,2}", "{1,}", "{2,}", "{0,1}", "{0,}"]
+
+
+def aimed_op_exprs(x="a", y="b"):
+    """content expressions in which a repetition is the first thing of a choice alternative or of a repeated body — the
+    places where a compiler that lets a loop share the entry node of the enclosing construct over-accepts"""
+    out = []
+    for u in REPEAT_OPS:
+        out += [f"({x}{u} | {y})", f"({y} | {x}{u})", f"({x}{u} {y})+", f"({x}{u} {y})*", f"({x}{u} | {y}){{2}}",
+                f"({x}{u} {y}){{2,}}", f"{x}{u} | {y}{u}", f"({x} | {y}{u}){{2}}", f"({x}{u} | {y})+"]
+    return out
+
+
+def aimed_ops_schema(rng):
+    """a small schema whose top node has one of the aimed expressions over two textblock types"""
+    for _ in range(20):
+        e = rng.choice(aimed_op_exprs("a", "b") + aimed_op_exprs("g", "b"))
+        spec = {"nodes": {"doc": {"content": e}, "a": {"content": "text*", "group": "g"}, "b": {"content": "text*", "group": "g h"},
+                          "c": {"content": "text*", "group": "h"}, "text": {"group": "inline"}},
+                "marks": {"em": {}}}
+        try:
+            return SchemaInfo(Schema(copy.deepcopy(spec)), "aimed-ops")
+        except Exception:  # noqa: BLE001
+            continue
+    return None
+
+
 def well_founded(schema):
     """every generatable type can be filled to a valid node in bounded depth — decided by the harness's own search
     (gen._filler), not by the library's create_and_fill, which is code under test"""
